@@ -33,7 +33,8 @@ UNIVERSES = {
     "3x3": (["a", "b"], [[3, 1, 2], [9, 7, 8]]),
     "2x2x2x2": (["d", "a", "c", "b"], [[1, 2], [4, 3], ["u", "v"], [0.5, 0.25]]),
 }
-KINDS = ["num", "bool", "str", "tuple2", "list", "array", "dict", "dataset"]
+KINDS = ["num", "bool", "str", "tuple2", "list", "array", "dict", "dataset",
+         "iarray"]
 SUBGRIDS = [[], [("z", [7, 5])], [("z", [7, 5, 6]), ("w", ["m", "n"])]]
 
 
@@ -225,7 +226,8 @@ def check_case(case):
                                 "cases %r: unrequested slot %r holds %r"
                                 % (chosen, lab, v)))
                     break
-                if kind in ("tuple2", "list", "array") and ncomp is None and \
+                if kind in ("tuple2", "list", "array", "iarray") and \
+                        ncomp is None and \
                         np.shape(v) != np.shape(real):
                     vio.append((key("placeholder-shape"),
                                 "placeholder shape %r, real result %r"
